@@ -110,7 +110,11 @@ fn final_segment(key: &str) -> &str {
 fn run_list_archive(obs: &mut Obs, rng: &mut Rng, idx: u64) {
     let sim = s3sim::global();
     let site = s3sim::fresh_site();
-    let (y, m, d) = (rng.range(1995, 2030) as i32, rng.range(1, 12) as u32, rng.range(1, 28) as u32);
+    let (y, m, d) = match rng.below(6) {
+        0 => (rng.range(1995, 2030) as i32, 12u32, rng.range(29, 30) as u32),
+        1 => (rng.range(1995, 2030) as i32, 1u32, rng.range(1, 3) as u32),
+        _ => (rng.range(1995, 2030) as i32, rng.range(1, 12) as u32, rng.range(1, 28) as u32),
+    };
     let prefix = format!("{:04}/{:02}/{:02}/{}", y, m, d, site);
     let n = match rng.below(6) {
         0 => 0,
@@ -225,7 +229,10 @@ fn run_list_realtime(obs: &mut Obs, rng: &mut Rng, idx: u64) {
     let mut times: HashMap<String, i64> = HashMap::new();
     for i in 0..n {
         let seq = i + 1;
-        let mut name = format!("20240813-123330-{:03}-{}", seq, if seq == 1 { "S" } else if seq == 55 { "E" } else { "I" });
+        // when hostile, the directory holds the tail of an older scan next to a newer one:
+        // bucket (key) order is then not sequence-number order
+        let scan = if hostile && seq > n / 2 { "20240812-091500" } else { "20240813-123330" };
+        let mut name = format!("{}-{:03}-{}", scan, seq, if seq == 1 { "S" } else if seq == 55 { "E" } else { "I" });
         if hostile && rng.chance(1, 3) {
             name.push_str(HOSTILE[rng.usize_below(HOSTILE.len())]);
         }
@@ -359,7 +366,13 @@ fn run_download(obs: &mut Obs, rng: &mut Rng, idx: u64, big: usize) {
     let mut asked_archive: Option<Identifier> = None;
     let mut asked_chunk: Option<ChunkIdentifier> = None;
     if archive_mode {
-        let (y, m, d) = (rng.range(1995, 2030) as i64, rng.range(1, 12) as u32, rng.range(1, 28) as u32);
+        // a third of the dates sit on year boundaries (29-31 December, 1-3 January), where a
+        // week-based or otherwise shifted year differs from the calendar year
+        let (y, m, d) = match rng.below(6) {
+            0 => (rng.range(1995, 2030) as i64, 12u32, rng.range(29, 31) as u32),
+            1 => (rng.range(1995, 2030) as i64, 1u32, rng.range(1, 3) as u32),
+            _ => (rng.range(1995, 2030) as i64, rng.range(1, 12) as u32, rng.range(1, 28) as u32),
+        };
         let name = format!("{}{:04}{:02}{:02}_{:02}{:02}{:02}_V06", site, y, m, d, rng.below(24), rng.below(60), rng.below(60));
         key = format!("{:04}/{:02}/{:02}/{}/{}", y, m, d, site, name);
         bytes = rng.bytes(size);
